@@ -29,7 +29,7 @@ func init() {
 
 const fedHeader = `From Coq Require Import String List ZArith Bool.
 Import ListNotations.
-From GW Require Import Base.Res Base.Json Gql.Syntax Gql.Spec Gql.Guards Gw.Locate Gw.LocateCheck Gw.FedCheck Gw.Points Gw.PointsCheck Gw.Select Gw.Vars Gw.Plan Gw.PlanCheck Gw.Scrub Gw.Fed.
+From GW Require Import Base.Res Base.Json Gql.Syntax Gql.Spec Gql.Guards Gw.Locate Gw.LocateCheck Gw.FedCheck Gw.Points Gw.PointsCheck Gw.Select Gw.Vars Gw.Plan Gw.PlanCheck Gw.Scrub Gw.Fed Gw.Plan2 Gw.PlanCheck2.
 Local Open Scope string_scope.
 Local Open Scope bool_scope.
 `
@@ -459,6 +459,14 @@ func runFed(cfg *runCfg, prop string) error {
 					}
 				}
 			}
+			if model != "true" {
+				// the full planner model (named fragments included): step tree with each step's definitions
+				if plans, perr := fed.Plan(q.Text); perr == nil && one.OpIndex < len(plans) {
+					model += fmt.Sprintf(" && plan2_agrees 400 %s %s %s %s %s %s %s", c.Strs(cs.Fed.Priorities), c.URLMap(fed.Cap.Locs),
+						c.FieldTypes(fed.Cap.Schema), frags, c.S(root), sels, c.fstep(plans[one.OpIndex].RootStep))
+					doc.Dist["model:plan2-compared"]++
+				}
+			}
 			if model != "true" && (prop == "C01" || prop == "C04") && len(parsed.Fragments) == 0 && obs.Class == 0 {
 				// the whole request path inside Coq: plan, calls, stitching, scrubbing
 				if flat, ferr := graphql.ApplyFragments(op.SelectionSet, parsed.Fragments); ferr == nil {
@@ -689,4 +697,14 @@ func (c *CoqFile) FieldShapes(s *ast.Schema) string {
 		}
 	}
 	return c.Intern("fsh", "fshape", "["+strings.Join(parts, "; ")+"]")
+}
+
+// fstep prints a plan step with its fragment definitions and dependents as a Gw.Plan2.fstep term
+func (c *CoqFile) fstep(s *gateway.QueryPlanStep) string {
+	loc := locationOf(s.Queryer)
+	thens := []string{}
+	for _, t := range s.Then {
+		thens = append(thens, c.fstep(t))
+	}
+	return fmt.Sprintf("(FStep %s %s %s %s %s [%s])", c.S(loc), c.S(s.ParentType), c.Strs(s.InsertionPoint), c.Sels(s.SelectionSet), c.Frags(s.FragmentDefinitions), strings.Join(thens, "; "))
 }
